@@ -47,7 +47,7 @@ theorem clauseOf_spec (re : Bytes → Bytes → Bool) (s : Selector) :
   | some p =>
     obtain ⟨field, inArr⟩ := p
     left
-    obtain ⟨c, hc, hce⟩ := matcherClause_spec re field s.op s.val
+    obtain ⟨c, hc, hce⟩ := matcherClause_spec re field s.op (selVal s)
     refine ⟨by simp [isGlobal, hp], ?_⟩
     cases inArr
     · refine ⟨c, by simp [clauseOf, hp, hc], ?_⟩
@@ -60,7 +60,7 @@ theorem clauseOf_spec (re : Bytes → Bytes → Bool) (s : Selector) :
       cases fieldSem field <;> simp
   | none =>
     right
-    obtain ⟨c, hc, hce⟩ := matcherClause_spec re "val" s.op s.val
+    obtain ⟨c, hc, hce⟩ := matcherClause_spec re "val" s.op (selVal s)
     refine ⟨by simp [isGlobal, hp], .and2 (.cmp (fnOf "Eq") "key" s.name) c, by simp [clauseOf, hp, hc], ?_⟩
     intro r
     simp only [PCond.eval, PCond.evalX, hce, selHolds, hp, fieldSem_val, fieldSem_key, fnOf_Eq, cmpBytes]
